@@ -75,7 +75,10 @@ def gen_params(rng, model):
             vals = [rng.choice([0.5, 1, 2, 3, 5]) for _ in slates[s]]
             if len(vals) > 1 and rng.random() < 0.2 and model not in ("AlternatingCrossover",):
                 vals[rng.randrange(len(vals))] = 0
-            intervals[b][s] = dict(zip(slates[s], vals))
+            items = list(zip(slates[s], vals))
+            if rng.random() < 0.5:
+                rng.shuffle(items)  # the interval's key order need not be the slate's listing order
+            intervals[b][s] = dict(items)
     case = {"slates": slates, "props": props, "cohesion": cohesion, "intervals": intervals}
     n = sum(sizes)
     if model == "short_name_PlackettLuce":
